@@ -1,6 +1,6 @@
 // Verification driver for C16, part C (op "cq"): a real container.Queue on an in-memory controller,
 // driven through a history of Update / Lock / Unlock / Cancel calls with a controllable poll window,
-// with the real ChooseInstanceType as type chooser, followed by one real runQueue pass on a
+// with the dispatcher's real typeChooser (= ChooseInstanceType over a 6-type table), followed by one real runQueue pass on a
 // recording stub pool. Injected with `go test -overlay`; not part of the repository.
 // Line protocol: see lean/ArvVerif/Driver/C16.lean.
 package dispatchcloud
@@ -58,13 +58,25 @@ type verifC16QAPI struct {
 
 const verifC16QMe = "zzzzz-gj3su-00000000000000me"
 
+// The constraint vector of a container is encoded in `need`:
+//   bits 0-3 VCPUs, bit 4 scheduling_parameters.preemptible, bits 5-6 a tmp mount of s*1000 bytes,
+//   bit 7 runtime_constraints.ram = 1900 (needs a 2000-byte type after the 100/95 scaling).
+// need = 0 is the all-zero container (what a record looks like whose sizing attributes were not selected).
+func verifC16QSizing(c *arvados.Container, need int) {
+	c.RuntimeConstraints = arvados.RuntimeConstraints{VCPUs: need & 15, RAM: int64((need>>7)&1) * 1900}
+	c.SchedulingParameters = arvados.SchedulingParameters{Preemptible: (need>>4)&1 == 1}
+	if s := (need >> 5) & 3; s > 0 {
+		c.Mounts = map[string]arvados.Mount{"/tmp": {Kind: "tmp", Capacity: int64(s) * 1000}}
+	}
+}
+
 func (api *verifC16QAPI) container(r verifC16QRec) arvados.Container {
 	c := arvados.Container{
-		UUID:               verifC16QUUID(r.u),
-		State:              r.state,
-		Priority:           r.prio,
-		RuntimeConstraints: arvados.RuntimeConstraints{VCPUs: r.need, RAM: 1},
+		UUID:     verifC16QUUID(r.u),
+		State:    r.state,
+		Priority: r.prio,
 	}
+	verifC16QSizing(&c, r.need)
 	if r.mine {
 		c.LockedByUUID = verifC16QMe
 	}
@@ -72,6 +84,41 @@ func (api *verifC16QAPI) container(r verifC16QRec) arvados.Container {
 		c.RuntimeStatus = map[string]interface{}{"error": "set"}
 	}
 	return c
+}
+
+// what a list response carries when the request has a `select` parameter: only the named attributes
+func verifC16QSelect(c arvados.Container, sel []string) arvados.Container {
+	if len(sel) == 0 {
+		return c
+	}
+	var out arvados.Container
+	for _, a := range sel {
+		switch a {
+		case "uuid":
+			out.UUID = c.UUID
+		case "state":
+			out.State = c.State
+		case "priority":
+			out.Priority = c.Priority
+		case "runtime_constraints":
+			out.RuntimeConstraints = c.RuntimeConstraints
+		case "container_image":
+			out.ContainerImage = c.ContainerImage
+		case "mounts":
+			out.Mounts = c.Mounts
+		case "scheduling_parameters":
+			out.SchedulingParameters = c.SchedulingParameters
+		case "created_at":
+			out.CreatedAt = c.CreatedAt
+		case "locked_by_uuid":
+			out.LockedByUUID = c.LockedByUUID
+		case "runtime_status":
+			out.RuntimeStatus = c.RuntimeStatus
+		default:
+			panic("verif: unsupported select attribute " + a)
+		}
+	}
+	return out
 }
 
 func (api *verifC16QAPI) snapshotLocked() map[int]verifC16QRec {
@@ -162,7 +209,7 @@ func (api *verifC16QAPI) RequestAndDecode(dst interface{}, method, path string, 
 					skip--
 					continue
 				}
-				list.Items = append(list.Items, c)
+				list.Items = append(list.Items, verifC16QSelect(c, p.Select))
 			}
 		}
 		return nil
@@ -437,11 +484,20 @@ func verifC16QCache(cq *container.Queue) string {
 	return strings.Join(out, ",")
 }
 
+// t0-t2 on demand (1, 2, 4 VCPUs; prices 1, 2, 3), t3-t5 their preemptible counterparts (prices 1/4, 1/2, 3/4);
+// RAM and scratch differ so that every dimension of the constraint vector decides for some container
 var verifC16QCluster = func() *arvados.Cluster {
 	cc := &arvados.Cluster{InstanceTypes: arvados.InstanceTypeMap{}}
-	for i, v := range []int{1, 2, 4} {
+	for i, t := range []struct {
+		v            int
+		ram, scratch int64
+		price        float64
+		pre          bool
+	}{{1, 1000, 1000, 1, false}, {2, 1000, 1000, 2, false}, {4, 2000, 2000, 3, false},
+		{1, 1000, 1000, 0.25, true}, {2, 2000, 1000, 0.5, true}, {4, 2000, 3000, 0.75, true}} {
 		name := fmt.Sprintf("t%d", i)
-		cc.InstanceTypes[name] = arvados.InstanceType{Name: name, ProviderType: "p" + name, VCPUs: v, RAM: 1000, Price: float64(i + 1)}
+		cc.InstanceTypes[name] = arvados.InstanceType{Name: name, ProviderType: "p" + name, VCPUs: t.v,
+			RAM: arvados.ByteSize(t.ram), Scratch: arvados.ByteSize(t.scratch), Price: t.price, Preemptible: t.pre}
 	}
 	return cc
 }()
@@ -501,7 +557,7 @@ func verifC16CQ(f []string) string {
 			st, ok := verifC16QStates[p[1]]
 			prio, err2 := strconv.ParseInt(p[2], 10, 64)
 			need, err3 := strconv.Atoi(p[3])
-			if err1 != nil || err2 != nil || err3 != nil || !ok || u < 0 || need < 0 || api.recs[u] != nil || (p[4] != "-" && p[4] != "m") {
+			if err1 != nil || err2 != nil || err3 != nil || !ok || u < 0 || need < 0 || need > 255 || api.recs[u] != nil || (p[4] != "-" && p[4] != "m") {
 				return "bad-op"
 			}
 			if p[4] == "m" && st != arvados.ContainerStateLocked && st != arvados.ContainerStateRunning {
@@ -511,9 +567,9 @@ func verifC16CQ(f []string) string {
 		}
 	}
 	logger := ctxlog.FromContext(verifC16QCtx)
-	cq := container.NewQueue(logger, nil, func(ctr *arvados.Container) (arvados.InstanceType, error) {
-		return ChooseInstanceType(verifC16QCluster, ctr)
-	}, api)
+	// the type chooser is the dispatcher's own (one dispatcher object per case = one process lifetime)
+	disp := &dispatcher{Cluster: verifC16QCluster}
+	cq := container.NewQueue(logger, nil, disp.typeChooser, api)
 	var updDone chan error
 	inUpdate := false
 	base := verifC16QBaseline()
